@@ -49,6 +49,18 @@ def stages(tier, rng, only=None):
         [ac.cyclic_dataset(rng, 3, 5, incomplete=k % 2 == 1) for k in range(100 if tier == "quick" else 1000)]
         + [ac.two_cycles(rng) for _ in range(12 if tier == "quick" else 100)]
         + [ac.cycle_plus(rng) for _ in range(60 if tier == "quick" else 600)], 1, 6), _nt_run))
+    nq = 60 if tier == "quick" else 600
+    out.append(ac.stage("reuse_other_dataset", PID, lambda: ac.reuse_other_cases(
+        [ac.cyclic_dataset(rng, 3, 5) for _ in range(nq)] + [ac.cycle_plus(rng) for _ in range(nq)]
+        + grids.datasets(3, 2)[::10], PARCONS, SCHEMES, rng), _nt_run))
+    out.append(ac.stage("tiny_penalties", PID, lambda: ac.cases(
+        [ac.cyclic_dataset(rng, 3, 5, incomplete=k % 2 == 1) for k in range(nq)] + grids.datasets(3, 2)[::6],
+        PARCONS + ["ExactPulp", "Exact(opt)"], ac.TINY, flags=(1,)), _nt_run))
+    out.append(Stage("partitions_tiny", "Trace_Part", partrun.run_partitions,
+                     lambda: _cases(grids.datasets(3, 2)[::2] + [ac.cyclic_dataset(rng, 3, 4) for _ in range(nq)],
+                                    ac.TINY, False), _nt_part, partrun.init, aux=aux))
+    out.append(ac.stage("sparse_cycles", PID, lambda: _runs([ac.cycle_plus_sparse(rng) for _ in range(nq)], 1, 6),
+                        _nt_run))
     if tier == "thorough":
         out.append(Stage("partitions3x3", "Trace_Part", partrun.run_partitions,
                          lambda: _cases(grids.datasets(3, 3), SCHEMES, False), _nt_part, partrun.init, aux=aux))
